@@ -687,6 +687,16 @@ Fixpoint csum (P A : list Z) (x : Z) : Z :=
   end.
 Definition ind (l : list Z) (u : Z) : Z := if existsb (Z.eqb u) l then 1 else 0.
 
+(* the number of (tracked) samples in the subtree of every node, by naive recursion over the
+   children (depth-bounded by [fuel]; depth N+1 is the whole subtree since parents are older):
+   count(u) = [u is a (tracked) sample] + sum of count(c) over the children c of u *)
+Definition zseq0 (n : nat) : list Z := map Z.of_nat (seq 0 n).
+Fixpoint sub_counts (fuel : nat) (P : list Z) (smp : Z -> Z) : list Z :=
+  match fuel with
+  | O%nat => map (fun _ => 0) P
+  | S f => let A := sub_counts f P smp in map (fun u => smp u + csum P A u) (zseq0 (length P))
+  end.
+
 (* observation of one tree for the correspondence check *)
 Definition obs_tree (o : topts) (t : tree) : list (list Z) :=
   [ [p_index (t_pos t); p_left (t_pos t); p_right (t_pos t); t_num_edges t];
@@ -804,3 +814,182 @@ Definition model_sites (L : Z) (ns : list node) (es : list edge) (sites : list Z
   do '(steps, _) <- sweep L (q_I q) (q_O q);
   do '(ids, mes) <- init_trees_sites steps (repeat NULL (length ns)) (enum_from 0 sites) muts;
   Ok (ids ++ [mes]).
+
+(* ------------------------------------------------------------------------------------ *)
+(* Python TreeSequence._edge_diffs_reverse (trees.py 4861-4912)                          *)
+(* ------------------------------------------------------------------------------------ *)
+
+(* [J] = removal order walked downwards (in_order[j], j = M-1 ..), [K] = insertion order walked
+   downwards (out_order[k]); both are the *reversed* index lists, cursors are suffixes. *)
+Definition next_left (J' K' : list iedge) : Z :=
+  let l := 0 in
+  let l := match J' with ie :: _ => Z.max l (iright ie) | [] => l end in
+  match K' with ie :: _ => Z.max l (ileft ie) | [] => l end.
+
+Fixpoint rsweep_loop (fuel : nat) (right : Z) (J K : list iedge) : res (list diff * list iedge) :=
+  match fuel with
+  | O%nat => Fuel
+  | S f =>
+      if negb (match J with [] => true | _ => false end) || (0 <? right) then
+        let (out, K') := span (fun ie => ileft ie =? right) K in
+        let (inn, J') := span (fun ie => iright ie =? right) J in
+        let left := next_left J' K' in
+        do '(rest, Kend) <- rsweep_loop f left J' K';
+        Ok ((left, right, map fst out, map fst inn) :: rest, Kend)
+      else Ok ([], K)
+  end.
+
+Definition edge_diffs_reverse (L : Z) (Ins Rem : list iedge) (include_terminal : bool) : res (list diff) :=
+  do '(ds, Kend) <- rsweep_loop (sweep_fuel Ins Rem) L (rev Rem) (rev Ins);
+  if include_terminal then
+    let l := match rev ds with (l, _, _, _) :: _ => l | [] => 0 end in
+    Ok (ds ++ [(l, l, map fst Kend, [])])
+  else Ok ds.
+
+(* ------------------------------------------------------------------------------------ *)
+(* Python-level views of a tree (python/tskit/trees.py)                                   *)
+(* ------------------------------------------------------------------------------------ *)
+
+(* Tree.roots: left_root, right_sib, ... *)
+Definition roots_of (V : Z) (t : tree) : res (list Z) := children_of t V.
+
+Definition start_nodes (V : Z) (t : tree) (root : Z) : res (list Z) :=
+  if root =? -1 then roots_of V t else Ok [root].
+
+(* Tree._inorder_traversal (2438-2452) *)
+Fixpoint inorder_rec (fuel : nat) (t : tree) (u : Z) : res (list Z) :=
+  match fuel with
+  | O%nat => Fuel
+  | S f =>
+      do ch <- children_of t u;
+      let mid := Nat.div (length ch) 2 in
+      do a <- mapM (inorder_rec f t) (firstn mid ch);
+      do b <- mapM (inorder_rec f t) (skipn mid ch);
+      Ok (concat a ++ [u] ++ concat b)
+  end.
+Definition inorder (V : Z) (t : tree) (root : Z) : res (list Z) :=
+  do rs <- start_nodes V t root;
+  do ls <- mapM (inorder_rec (S (length (t_parent t))) t) rs; Ok (concat ls).
+
+(* Tree._levelorder_traversal (2454-2466): deque, popleft, extend(children) *)
+Fixpoint level_loop (fuel : nat) (t : tree) (queue : list Z) : res (list Z) :=
+  match queue with
+  | [] => Ok []
+  | v :: r =>
+      match fuel with
+      | O%nat => Fuel
+      | S f => do ch <- children_of t v; do rest <- level_loop f t (r ++ ch); Ok (v :: rest)
+      end
+  end.
+Definition levelorder (V : Z) (t : tree) (root : Z) : res (list Z) :=
+  do rs <- start_nodes V t root; level_loop (S (length (t_parent t))) t rs.
+
+(* Tree.timeasc (2390-2413): np.lexsort([nodes, time[nodes]]) of the preorder; the virtual
+   root has time +inf.  key = (is virtual root, time, id) *)
+Definition tkey (q : tseq) (u : Z) : res key4 :=
+  if u =? q_N q then Ok (1, 0, u, 0) else do tm <- node_time (q_nodes q) u; Ok (0, tm, u, 0).
+Definition timeasc (q : tseq) (t : tree) (root : Z) : res (list Z) :=
+  do l <- preorder_from (q_N q) t root;
+  do ks <- mapM (fun u => do k <- tkey q u; Ok (k, u)) l;
+  Ok (map snd (isort ks)).
+Definition timedesc (q : tseq) (t : tree) (root : Z) : res (list Z) :=
+  do l <- timeasc q t root; Ok (rev l).
+
+(* Tree._minlex_postorder_traversal (2480-2519) *)
+Fixpoint assoc (m : list (Z * Z)) (k : Z) : res Z :=
+  match m with [] => Err 4 | (a, b) :: r => if a =? k then Ok b else assoc r k end.
+Fixpoint min_list (l : list Z) (d : Z) : Z :=
+  match l with [] => d | x :: r => Z.min x (min_list r x) end.
+Fixpoint min_leaf_map (t : tree) (post : list Z) (m : list (Z * Z)) : res (list (Z * Z)) :=
+  match post with
+  | [] => Ok m
+  | u :: r =>
+      do ch <- children_of t u;
+      do v <- (match ch with
+               | [] => Ok u
+               | c :: _ => do ms <- mapM (assoc m) ch; Ok (min_list ms c)
+               end);
+      min_leaf_map t r ((u, v) :: m)
+  end.
+(* sorted(children, key=min_leaf, reverse=True) then pushed: the stack top is the child with
+   the smallest min_leaf; a stable ascending sort gives the pop order *)
+Fixpoint minlex_loop (fuel : nat) (t : tree) (V : Z) (isv : bool) (m : list (Z * Z))
+                     (stack : list (Z * bool)) : res (list Z) :=
+  match stack with
+  | [] => Ok []
+  | (u, visited) :: s =>
+      match fuel with
+      | O%nat => Fuel
+      | S f =>
+          if visited then
+            do r <- minlex_loop f t V isv m s;
+            Ok (if negb (u =? V) || isv then u :: r else r)
+          else
+            do ch <- children_of t u;
+            do ks <- mapM (fun c => do k <- assoc m c; Ok ((k, 0, 0, 0), c)) ch;
+            let sorted := map snd (isort ks) in
+            minlex_loop f t V isv m (map (fun c => (c, false)) sorted ++ (u, true) :: s)
+      end
+  end.
+Definition minlex_postorder (V : Z) (t : tree) (root : Z) : res (list Z) :=
+  do post <- postorder_from V t root;
+  do m <- min_leaf_map t post [];
+  let isv := root =? V in
+  let root' := if root =? -1 then V else root in
+  minlex_loop (4 * S (length (t_parent t)))%nat t V isv m [(root', false)].
+
+(* Tree.leaves(u) (2215-2239): preorder nodes without children *)
+Fixpoint filterM (f : Z -> res bool) (l : list Z) : res (list Z) :=
+  match l with
+  | [] => Ok []
+  | x :: r => do b <- f x; do rest <- filterM f r; Ok (if b then x :: rest else rest)
+  end.
+Definition leaves (V : Z) (t : tree) (root : Z) : res (list Z) :=
+  do rs <- start_nodes V t root;
+  do ls <- mapM (fun r => do l <- preorder_from V t r;
+                          filterM (fun v => do ch <- children_of t v; Ok (match ch with [] => true | _ => false end)) l) rs;
+  Ok (concat ls).
+
+(* Tree.samples(u) (2241-2286, after fix 6e2f788: the virtual root is expanded to the roots) *)
+Fixpoint sample_chain (fuel : nat) (samples nxt : list Z) (i stop : Z) : res (list Z) :=
+  match fuel with
+  | O%nat => Fuel
+  | S f => do s <- get samples i;
+           if i =? stop then Ok [s] else do n <- get nxt i; do r <- sample_chain f samples nxt n stop; Ok (s :: r)
+  end.
+Definition samples_of (q : tseq) (o : topts) (t : tree) (root : Z) : res (list Z) :=
+  let V := q_N q in
+  do rs <- (if (root =? -1) || (root =? V) then roots_of V t else Ok [root]);
+  do ls <- mapM (fun r =>
+      if o_lists o then
+        do i <- get (t_lsamp t) r;
+        if i =? NULL then Ok [] else
+        do stop <- get (t_rsamp t) r;
+        sample_chain (S (length (q_samples q))) (q_samples q) (t_nsamp t) i stop
+      else
+        do l <- preorder_from V t r;
+        filterM (fun v => if v =? V then Ok false else do n <- get (q_nodes q) v; Ok (nsample n)) l) rs;
+  Ok (concat ls).
+
+(* all Python-level views of one tree, for the correspondence: per start node -1, 0..N *)
+Definition obs_pyviews (q : tseq) (o : topts) (t : tree) : res (list (list Z)) :=
+  let V := q_N q in
+  let starts := (-1) :: zseq (Z.to_nat (V + 1)) in
+  do r <- roots_of V t;
+  do a <- mapM (inorder V t) starts;
+  do b <- mapM (levelorder V t) starts;
+  do c <- mapM (timeasc q t) starts;
+  do d <- mapM (timedesc q t) starts;
+  do e <- mapM (minlex_postorder V t) starts;
+  do f <- mapM (leaves V t) starts;
+  do g <- mapM (samples_of q o t) starts;
+  Ok ([r] ++ a ++ b ++ c ++ d ++ e ++ f ++ g).
+
+Definition model_pyviews (L : Z) (ns : list node) (es : list edge) (o : topts)
+  : res (list (list (list Z))) :=
+  do q <- load L ns es;
+  do ts <- all_trees q o;
+  do vs <- mapM (obs_pyviews q o) ts;
+  do r0 <- edge_diffs_reverse L (q_I q) (q_O q) false;
+  do r1 <- edge_diffs_reverse L (q_I q) (q_O q) true;
+  Ok ([obs_diffs r0; obs_diffs r1] ++ vs).
